@@ -181,7 +181,9 @@ CLAIMS = {
             "parse.docstring reads from the docstring emit.function wrote (to_docstring with every helper it calls, then "
             "inspect.cleandoc as ast.get_docstring applies it, then the ReST parser) is the description it was written from, "
             "at EVERY indentation level, for any number of uniquely named, typed, described, default-free entries and texts "
-            "of any length (types in the docstring, separating indentation on; no defaults, no return entry). Its parts: "
+            "of any length (types in the docstring, separating indentation on; no defaults, no return entry), and "
+            "FuncDocInline.C03_docstring_half_inline_partial - the same with the types in the signature (inline_types=True, the "
+            "default): :param lines only, every entry read back with its prose. Its parts: "
             "ToDocstring.toDocstring_text (the closed form of the emitted text, types in the docstring or not, separating "
             "indentation on or off), FuncDoc.cleandoc_uniform (cleandoc removes a uniform margin, whatever the lines), "
             "FuncDocParse.parse_text0 (the parser on text without the line breaks emit.docstring puts around it). " "Kernel-checked: Kinds.pres_func (one conversion keeps every parameter's prose, type and explicit default and only "
